@@ -23,6 +23,7 @@ func HC02RawRTP() {
 		RTCPFeedback:        []interceptor.RTCPFeedback{{Type: "nack"}, {Type: "transport-cc"}, {Type: "ack", Parameter: "ccfb"}}}
 	phase := 0
 	n := 0
+	raw0 := byte(0)
 	rd := it.BindRemoteStream(rinfo, interceptor.RTPReaderFunc(func(buf []byte, at interceptor.Attributes) (int, interceptor.Attributes, error) {
 		if phase == 0 {
 			raw := vr.NondetBytes(L)
@@ -30,6 +31,10 @@ func HC02RawRTP() {
 			// 2^15 is legitimate and only makes the bitmap-clearing loops long
 			vr.Assume(raw[2] == 0 && raw[3] < 8)
 			copy(buf, raw)
+			raw0 = raw[0]
+			for i := L; i < L+32 && i < len(buf); i++ {
+				buf[i] = 0x11 // stale bytes of an earlier, longer packet beyond the symbolic part
+			}
 			n = vr.NondetInt(0, L)
 			return n, at, nil
 		}
@@ -42,8 +47,48 @@ func HC02RawRTP() {
 	vr.Cover("untrusted packet handled")
 	vr.Assert(err != nil || got == n, "rejected with an error or passed on with the length it was given")
 	vr.Assert(got <= n && got >= 0, "never reports more bytes than it was given")
+	if k >= 3 && k <= 8 {
+		// interceptors that parse the RTP header: a packet shorter than the header it announces
+		// (CSRC count) must be rejected, whatever stale bytes follow it in the buffer
+		cc := int(raw0 & 0x0F)
+		if n < 12+4*cc {
+			vr.Cover("truncated packet")
+			vr.Assert(err != nil, "a truncated packet is rejected with an error, not parsed out of stale buffer contents")
+		}
+	}
 	phase = 1
 	got2, _, err2 := rd.Read(buf, nil)
 	vr.Assert(err2 == nil && got2 == 20, "keeps working for a subsequent well-formed packet")
+	_ = it.Close()
+}
+
+// HC02ExtRTP: packets that carry a header extension block with arbitrary contents (one-byte or
+// two-byte profile, one 32-bit word whose id/length nibbles and data are symbolic, possibly
+// truncated) through the readers that look up the transport-wide-CC extension.
+func HC02ExtRTP() {
+	k := vr.Param("kind", 6)
+	it := member(k)
+	it.BindRTCPWriter(interceptor.RTCPWriterFunc(func(p []rtcp.Packet, _ interceptor.Attributes) (int, error) { return 0, nil }))
+	rinfo := &interceptor.StreamInfo{SSRC: 0x2222, ClockRate: 90000, PayloadType: 96,
+		RTPHeaderExtensions: []interceptor.RTPHeaderExtension{{URI: twccURI, ID: 5}},
+		RTCPFeedback:        []interceptor.RTCPFeedback{{Type: "nack"}, {Type: "transport-cc"}, {Type: "ack", Parameter: "ccfb"}}}
+	n := 0
+	profiles := [2][2]byte{{0xBE, 0xDE}, {0x10, 0x00}}
+	prof := profiles[vr.Concretize(vr.NondetInt(0, 1))]
+	rd := it.BindRemoteStream(rinfo, interceptor.RTPReaderFunc(func(buf []byte, at interceptor.Attributes) (int, interceptor.Attributes, error) {
+		pkt := [16]byte{0x90, 96, 0, 7, 0, 0, 0, 1, 0, 0, 0x22, 0x22, prof[0], prof[1], 0, 1}
+		copy(buf, pkt[:])
+		ext := vr.NondetBytes(4)
+		copy(buf[16:], ext)
+		for i := 20; i < 40; i++ {
+			buf[i] = 0x11
+		}
+		n = vr.NondetInt(16, 22)
+		return n, at, nil
+	}))
+	buf := make([]byte, 64)
+	got, _, err := rd.Read(buf, nil)
+	vr.Cover("extension packet handled")
+	vr.Assert(err != nil || got == n, "rejected with an error or passed on with the length it was given")
 	_ = it.Close()
 }
